@@ -130,6 +130,17 @@ def rule_flow_config_names(ctx):
             if p.diverged:
                 continue
             ret = p.ret
+            if isinstance(ret, tuple) and ret and ret[0] == 'overlay' and ret[1] == ('param', 1):
+                # `mut self` style: self with some fields assigned in place
+                changed = [(path[-1], v_) for path, v_ in ret[2]]
+                n += 1
+                ok = len(changed) == 1 and changed[0][0] == b.name and any(x == ('param', 2) for x in subterms(changed[0][1])) and \
+                    isinstance(changed[0][1], tuple) and changed[0][1][0] == 'aggr' and changed[0][1][2] == 'Some'
+                r.instance(setter=nid, changes=[(f, fmt(v)[:40]) for f, v in changed], ok=ok)
+                if not ok:
+                    r.violate(nid, 'setter-fields', ','.join(f for f, _ in changed), 'builder setter %s changes field(s) %s (expected exactly `%s` = Some(parameter), others preserved)'
+                              % (nid, [(f, fmt(v)[:40]) for f, v in changed], b.name), where=ctx.where(nid))
+                continue
             if not (isinstance(ret, tuple) and ret[0] == 'aggr'):
                 r.violate(nid, 'setter-shape', b.name, 'builder setter %s does not return a rebuilt builder' % nid, where=ctx.where(nid))
                 continue
@@ -239,6 +250,9 @@ def rule_build_validate(ctx):
     return r
 
 
+_has_field0 = has_field
+
+
 def rule_default_consts(ctx):
     r = RuleResult('DEFAULT-consts', 'no weigher => every entry weighs the constant 1; no max_capacity => the capacity predicate is constantly true '
                    'and the weight to evict is constantly 0; new(n) passes (Some(n), None, default hasher, None, None, None); the builder '
@@ -267,14 +281,21 @@ def rule_default_consts(ctx):
         if not ok:
             r.violate(nid, 'default-weight', 'weigher=None', 'without a weigher %s returns %s instead of the constant 1' % (nid, [fmt(x) for x in none_ret]), where=ctx.where(nid))
     # capacity predicate / weight to evict
+    from .roles import named as _named
+    role_fns = {_named(ctx, k_): k_ for k_ in ('unsync.has_capacity', 'unsync.weights_to_evict') + (('sync.has_capacity', 'sync.weights_to_evict') if ctx.has_sync else ())}
     for nid, b in sorted(prog.bodies.items()):
-        if b.kind == 'closure' or not nid.startswith(('unsync::cache::Cache::', 'sync::base_cache::Inner::')):
+        if b.kind == 'closure' or not (nid.startswith(('unsync::cache::Cache::', 'sync::base_cache::Inner::')) or nid in role_fns):
             continue
         rt = b.locals[0]['ty']['s']
         if rt not in ('bool', 'u64'):
             continue
-        if not any(('read', a, 'max_capacity') in ctx.eff.direct.get(nid, ()) for a in ('unsync::cache::Cache', 'sync::base_cache::Inner')):
+        cap_params = [i for i in range(1, b.argc + 1) if b.local_ty(i)['s'] == 'std::option::Option<u64>'] if nid in role_fns else []
+        if not any(('read', a, 'max_capacity') in ctx.eff.direct.get(nid, ()) for a in ('unsync::cache::Cache', 'sync::base_cache::Inner')) and not cap_params:
             continue
+
+        def has_field(t_, names, _cp=tuple(cap_params)):
+            # the capacity: the max_capacity field, or (role functions that take it as an argument) their Option<u64> parameter
+            return _has_field0(t_, names) or ('max_capacity' in names and any(isinstance(y, tuple) and y and y[0] == 'param' and y[1] in _cp for y in subterms(t_)))
         sx = ctx.symex(inline_depth=2)
         paths = [p for p in sx.run(nid) if not p.diverged]
         # only predicates of the form le(size + w, limit) / saturating_sub(size, limit)
@@ -301,7 +322,8 @@ def rule_default_consts(ctx):
     for nid in ('unsync::cache::Cache::new', 'sync::cache::Cache::new'):
         if nid not in prog.bodies:
             continue
-        sx = ctx.symex(inline_depth=0, inline_pred=lambda a, b, c: False)
+        # (small helper constructors of an argument record are stepped into; the values are matched by parameter / field NAME)
+        sx = ctx.symex(inline_depth=2, inline_pred=lambda a, b, c: False if a.endswith('with_everything') else (None if len(b.blocks) <= 12 else False))
         for p in sx.run(nid):
             if p.diverged:
                 continue
@@ -310,8 +332,18 @@ def rule_default_consts(ctx):
             ok = False
             if calls:
                 a = calls[0][2]
-                ok = len(a) == 6 and a[0] == ('aggr', OPTION, 'Some', (('param', 1),)) and a[1] == NONE and a[3] == NONE and a[4] == NONE and a[5] == NONE and \
-                    has_call(a[2], ('default',))
+                vals = {}
+                cb_ = prog.bodies.get(calls[0][1])
+                for i_, av in enumerate(a):
+                    ad_ = prog.adts.get(norm(str(av[1]))) if (isinstance(av, tuple) and av and av[0] == 'aggr') else None
+                    if ad_ and ad_['kind'] == 'Struct' and av[1] != OPTION and len(ad_['variants'][0]['fields']) == len(av[3]):
+                        for f_, fv in zip([x['name'] for x in ad_['variants'][0]['fields']], av[3]):
+                            vals[f_] = fv
+                    elif cb_ is not None and i_ + 1 <= cb_.argc:
+                        vals[cb_.local_name(i_ + 1)] = av
+                others = [k_ for k_ in vals if k_ not in ('max_capacity', 'build_hasher')]
+                ok = vals.get('max_capacity') == ('aggr', OPTION, 'Some', (('param', 1),)) and 'build_hasher' in vals and has_call(vals['build_hasher'], ('default',)) and \
+                    len(others) == 4 and all(vals[k_] == NONE for k_ in others)
             r.instance(function=nid, with_everything_args=[fmt(x)[:30] for x in calls[0][2]] if calls else None, ok=ok)
             if not ok:
                 r.violate(nid, 'new-args', 'with_everything', '%s does not pass (Some(max_capacity), None, default hasher, None, None, None)' % nid, where=ctx.where(nid))
@@ -444,6 +476,7 @@ def rule_initcap_sink(ctx):
     n = 0
     # closures called by Option::map on a tainted receiver get their argument tainted
     closure_seeds = {}
+    sinks = set()
     work = sorted(prog.bodies)
     for rnd in range(2):
         for nid in work:
@@ -488,11 +521,17 @@ def rule_initcap_sink(ctx):
                     else:
                         okc = any(str(ext).endswith(x) for x in ALLOWED_INITCAP_CALLS)
                         callee = ext
+                        if str(ext).endswith('with_capacity_and_hasher'):
+                            sinks.add(nid.split('::')[0])
                     r.instance(function=nid, kind='call', callee=callee, ok=okc)
                     if not okc:
                         r.violate(nid, 'initial-capacity-sink', str(callee).split('::')[-1], 'a value computed from initial_capacity is passed to %s in %s' % (callee, nid),
                                   where=ctx.where(nid, t.get('line')), expected='only Option adaptors, + WRITE_LOG_SIZE, with_capacity_and_hasher')
-    r.require_floor(8 if ctx.has_sync else 3, 'uses of initial_capacity')
+    # anchor: the tracked value is really the one that sizes the map of each cache kind (the number of hops in between is free)
+    want_sinks = {'unsync', 'sync'} if ctx.has_sync else {'unsync'}
+    if not r.violations and not want_sinks <= sinks:
+        raise CheckFailure('FLOW-initcap-sink: the value tracked as initial_capacity does not reach the map constructor of %s -- the rule would pass vacuously (anchor moved?)' % sorted(want_sinks - sinks))
+    r.require_floor(3, 'uses of initial_capacity')
     return r
 
 
